@@ -512,7 +512,7 @@ func (c *Canary) handleTCP(eh *ethernet.Frame, iph *ipv4.Header, data []byte) er
 			}
 
 			if fn, ok := handlers[hdr.Destination]; !ok {
-				buff := make([]byte, 2048)
+				buff := make([]byte, socketReadBufferSize)
 
 				rdr := state.socket // io.TeeReader(state.socket, os.Stdout)
 				n, _ := rdr.Read(buff)
